@@ -174,8 +174,14 @@ def _GridWorld(case, rng):
     gamma = rng.choice([1.0, 0.95, 0.5])
     params = dict(layout=rows, success_prob=sp_, step_cost=step, feature_rewards=fr, absorbing_features=list(absf),
                   discount_rate=gamma)
+    # the reward table may be handed over as a dict, a list / tuple of pairs, a dict view, a zip object or a generator
+    fr_rep = rng.choice(["dict", "dict", "pairs", "items", "zip", "generator"]) if fr is not None else "none"
+    fr_arg = {"none": None, "dict": fr, "pairs": list(fr.items()) if fr else fr, "items": fr.items() if fr else fr,
+              "zip": zip(list(fr), list(fr.values())) if fr else fr,
+              "generator": ((k, v) for k, v in fr.items()) if fr else fr}[fr_rep]
+    params["feature_rewards_as"] = fr_rep
     gw = case.call("GridWorld", GridWorld, tile_array=rows if rng.random() < 0.5 else "\n".join(rows),
-                   feature_rewards=fr, absorbing_features=absf, step_cost=step, success_prob=sp_, discount_rate=gamma)
+                   feature_rewards=fr_arg, absorbing_features=absf, step_cost=step, success_prob=sp_, discount_rate=gamma)
     feat = {}
     for r in range(h):
         for c in range(w):
